@@ -1339,6 +1339,100 @@ def time_ra_probe(ctx):
                              detail='the stored ra column is not the transform result itself (model: ScrI3Time/ScrSeasonal/ScrTime)')
 
 
+# ---------------------------------------------------------------------------- extension: DataField._calc_static_values
+def static_field_probe(ctx):
+    """a real TrialDataManager with ONE static data field, initialised on a small events table: source-event fields
+    (is_srcevt_data) and event fields, functions returning an array of the right / a wrong length, the array of an
+    existing field, something that is not an ndarray; existing field names.  Status, value view and sharing of the
+    events table against `static_obs`; predicate: a source-event field never touches the events array, an event field
+    changes only its own binding"""
+    from skyllh.core.storage import DataFieldRecordArray as DFRA
+    from skyllh.core.trialdata import TrialDataManager
+    rng = ctx.rng
+    exprs, impl, cases = [], [], []
+
+    class SHG:
+        def __init__(self, n):
+            self.n_sources = n
+    kinds = ['ok', 'len_n', 'len_bad', 'notarray', 'alias', 'empty']
+    ncase = ctx.budget(24, 200)
+    for ci in range(ncase):
+        n = rng.randint(1, 5)
+        nsrc = 1 + (ci // 2) % 2
+        srcevt = bool(ci % 2)
+        kd = kinds[(ci // 4) % len(kinds)] if ci < 4 * len(kinds) else rng.choice(kinds)
+        name = rng.choice(['stat_a', 'stat_a', 'dec'])          # a new field or an existing one
+        tab = {f: [rng.randint(0, 40) for _ in range(n)] for f in ('ra', 'dec', 'time', 'user_q')}
+        case = {'kind': 'static-field', 'n': n, 'n_sources': nsrc, 'srcevt': srcevt, 'ret': kd, 'name': name, 'table': tab}
+        ctx.case(case)
+        ctx.count(f"static:{'srcevt' if srcevt else 'event'}:{kd}")
+        m, status = run_static_case(case)
+        for msg in m['violations']:
+            ctx.violation('DataField._calc_static_values', msg[0], msg[1], case=case, impl=m['view'],
+                          predicate='a source-event data field never touches the events array; an event data field '
+                                    'changes only its own binding')
+        tterm = '[' + '; '.join(f'({nat(fid(f))}, {zl(tab[f])})' for f in tab) + ']'
+        rterm = {'notarray': 'RNotArray', 'alias': f"(RArr (FAlias {nat(fid('ra'))}))"}.get(kd) or f"(RArr (FFresh {zl(m['vals'])}))"
+        exprs.append(f"static_obs {tterm} {nat(fid(name))} {rterm} {'true' if srcevt else 'false'} {n * nsrc}")
+        impl.append((status, m['view'], m['share']))
+        cases.append(case)
+
+    def canon(v):
+        (ms, (mviews, mlocs)) = v
+        st_ = 'Ok' if (ms == ('Ok', 'tt') or ms[0] == 'Ok') else ms[1]
+        cols, ln = mviews[0][1]
+        view = ([(f, list(c[1])) for (f, c) in cols], ln)
+        ent = [(f, b) for (_, f, b) in mlocs]
+        share = sorted((a[0], b[0]) for x, a in enumerate(ent) for b in ent[x + 1:] if a[1] == b[1] and ln > 0)
+        return (st_, view, share)
+    return ('alias.calc_static', 'DataField._calc_static_values differs from the model', canon, exprs, impl, cases)
+
+
+def run_static_case(c):
+    """the implementation side of one static-field case (also used by the replay)"""
+    from skyllh.core.storage import DataFieldRecordArray as DFRA
+    from skyllh.core.trialdata import TrialDataManager
+
+    class SHG:
+        n_sources = c['n_sources']
+    n, kd, name, srcevt = c['n'], c['ret'], c['name'], c['srcevt']
+    events = DFRA({f: np.array(v, dtype=np.float64) for f, v in c['table'].items()}, copy=False)
+    before = {f: (events[f], events[f].tobytes()) for f in events.field_name_list}
+    nv = n * c['n_sources']
+    want = {'ok': nv if srcevt else n, 'len_n': n, 'len_bad': n + 1, 'empty': 0}.get(kd, n)
+    vals = [(7 * j + 3) % 41 for j in range(want)]
+
+    def func(tdm, shg_mgr, pmm):
+        if kd == 'notarray':
+            return list(vals)
+        if kd == 'alias':
+            return tdm.get_data('ra')
+        return np.array(vals, dtype=np.float64)
+    tdm = TrialDataManager()
+    tdm.add_data_field(name, func, is_srcevt_data=srcevt)
+    status = 'Ok'
+    try:
+        tdm.initialize_trial(SHG(), None, events)
+    except Exception as ex:   # noqa: BLE001 -- the error kind is compared
+        status = type(ex).__name__
+    ev = tdm.events
+    viol = []
+    for f, (arr, raw) in before.items():
+        if f == name and not srcevt:
+            continue
+        if f not in ev or ev[f] is not arr or ev[f].tobytes() != raw:
+            viol.append(('other-field-changed', f'field {f} of the events array was re-bound or changed'))
+    if srcevt and (name in ev) != (name in before):
+        viol.append(('srcevt-field-written-into-events', f'source-event data field {name} appeared in the events array'))
+    if len(ev) != n:
+        viol.append(('length-changed', f'{n} -> {len(ev)} events'))
+    view = ([(fid(f), [int(x) for x in ev[f].tolist()]) for f in ev.field_name_list], len(ev))
+    ent = [(fid(f), ev[f]) for f in ev.field_name_list]
+    share = sorted((a[0], b[0]) for x, a in enumerate(ent) for b in ent[x + 1:]
+                   if a[1].size and b[1].size and np.shares_memory(a[1], b[1]))
+    return {'view': view, 'share': share, 'vals': vals, 'violations': viol}, status
+
+
 # ---------------------------------------------------------------------------- entry points
 def run_sessions(ctx, sessions, tag):
     install_spies()
@@ -1561,7 +1655,7 @@ def table_probe(ctx):
     return ('alias.table_ops', 'DataFieldRecordArray operation differs from the table model', canon, exprs, impl, cases)
 
 
-EXTRA_PROBES = [table_probe]
+EXTRA_PROBES = [table_probe, static_field_probe]
 
 
 def replay(ctx, rp):
@@ -1572,6 +1666,19 @@ def replay(ctx, rp):
         return seasonal_probe(ctx)
     if c.get('kind') == 'time-ra':
         return time_ra_probe(ctx)
+    if c.get('kind') == 'static-field':
+        ctx.case(c)
+        m, status = run_static_case(c)
+        for msg in m['violations']:
+            ctx.violation('DataField._calc_static_values', msg[0], msg[1], case=c, impl=m['view'])
+        if ctx.model_ok:
+            (site, det, canon, exprs, impl, cases) = static_field_probe(ctx)     # the whole stream against the model
+            vals = common.coq_eval('c07sf', IMPORTS, exprs)
+            for cc, a, v in zip(cases, impl, vals):
+                ctx.corr_cases += 1
+                if canon(v) != a:
+                    ctx.disagree(site, cc, a, canon(v), detail=det)
+        return
     if c.get('kind') == 'table':
         ctx.notes.append('table probe case: re-running the probes and the sessions')
         return run(ctx)
